@@ -73,7 +73,11 @@ impl Agg {
         if cx.discard {
             self.discards += 1;
         }
-        let n = if case.engine == Engine::Wide { 300 } else { capacity_of(case) };
+        let n = match case.engine {
+            Engine::Wide => 300,
+            Engine::Slices => mmv::plan::SLICES_N,
+            _ => capacity_of(case),
+        };
         if nontrivial(armed, &cx.st, n) {
             let fresh = self.nt.insert(case.hash64());
             if fresh && self.samples.len() < 2 && (n >= 2 || self.evaluations > 200) && case.ops.len() <= 24 {
@@ -279,7 +283,7 @@ fn strategy(prop: Prop, camp: Campaign) -> impl Strategy<Value = Case> {
             None => cap % l.len() as u8,
         };
         let mut c = Case { engine: camp.engine, prop, kind, cap, cap2, univ: 1, mode, fuse: -1, ops, named: vec![] };
-        if matches!(camp.engine, Engine::Wide) {
+        if matches!(camp.engine, Engine::Wide | Engine::Slices) {
             c.univ = 255;
         } else if matches!(camp.engine, Engine::SetAlg | Engine::MapEq) {
             c.cap %= 5;
@@ -451,7 +455,7 @@ fn write_replay(prop: Prop, case: &Case, msg: &str) -> PathBuf {
     let dir = verif_dir().join("replays");
     let _ = std::fs::create_dir_all(&dir);
     let path = dir.join(format!("{}-{:016x}.case", prop.name(), case.hash64()));
-    let mut comments = vec![format!("violation: {msg}"), format!("capacity N = {}", if case.engine == Engine::Wide { 300 } else { capacity_of(case) })];
+    let mut comments = vec![format!("violation: {msg}"), format!("capacity N = {}", match case.engine { Engine::Wide => 300, Engine::Slices => 5, _ => capacity_of(case) })];
     comments.extend(trace_of(case, prop));
     let _ = std::fs::write(&path, to_text_named(case, &comments));
     path
@@ -651,7 +655,7 @@ fn dump_cases(prop: Prop, dir: &Path, count: usize) {
             if let Ok(tree) = st.new_tree(&mut runner) {
                 let case = tree.current();
                 // samples for the slow platforms (Miri): small capacities and short histories only
-                if std::env::var("VERIF_DUMP_SMALL").is_ok() && (case.engine == Engine::Wide || capacity_of(&case) > 17 || case.ops.len() > 24) {
+                if std::env::var("VERIF_DUMP_SMALL").is_ok() && (case.engine == Engine::Wide || case.engine == Engine::Slices || capacity_of(&case) > 17 || case.ops.len() > 24) {
                     continue;
                 }
                 let _ = std::fs::write(dir.join(format!("{}-{:03}.case", prop.name(), k)), case.to_text(&[]));
